@@ -15,7 +15,7 @@ RULE = ('BFS over all histories of evaluate(addr)/set_value(input, v) up to the 
         'least one cached formula/range value (each (state, op) pair is executed once per shard; large jobs are '
         'sharded by first operation).')
 ASSUMPTIONS = ['from-scratch in-memory compile of the same specification is the oracle (differential, no Excel semantics)',
-               'only constant cells are written; set_as_range is outside the alphabet',
+               'only constant cells are written (one at a time, as an address list with a value list, and as a range with a matrix); set_as_range=True is outside the alphabet',
                'canonical key lists every field later operations read; on introspection failure histories are not merged']
 
 VALUES_QUICK = [7, 0, False, None, 't', True, 1, 2.5, 2.500001]
@@ -35,11 +35,41 @@ class P(explore.Problem):
                    [('set', i, v) for i in fam['inputs'] for v in values]
         if origin.startswith('inmem') and values:
             self.ops.append(('recalc',))          # public API: recalculate every known cell
+        if values:
+            # the multi-address forms of set_value: a list of addresses with a list of values, a range with a matrix
+            ins = fam['inputs']
+            if len(ins) >= 2:
+                self.ops.append(('setmany', (ins[0], ins[1]), (7, None)))
+                self.ops.append(('setmany', (ins[1], ins[0]), (False, 0)))
+            for rng in fam['ranges']:
+                mem = self.members(rng)
+                if mem and all(c in ins for row in mem for c in row):
+                    k = iter(range(100))
+                    self.ops.append(('setrange', rng, tuple(tuple(50 + next(k) for _ in row) for row in mem)))
+                    pat = [None, 't', 0, True]
+                    self.ops.append(('setrange', rng, tuple(tuple(pat[next(k) % 4] for _ in row) for row in mem)))
         self.refmemo = {}
         self.path = None
         self.invalidating = 0
         self.cache_hits = 0
         self.prepare()
+
+    @staticmethod
+    def members(rng):
+        sh, ref = W.split_addr(rng)
+        if ':' not in ref or not all(W.CELL_RE.match(x) for x in ref.split(':')):
+            return None
+        return [[f'{sh}!{c}' for c in row] for row in W.range_cells(ref)]
+
+    def writes(self, op):
+        """the (address, value) pairs an operation writes"""
+        if op[0] == 'set':
+            return [(op[1], op[2])]
+        if op[0] == 'setmany':
+            return list(zip(op[1], op[2]))
+        if op[0] == 'setrange':
+            return [(a, v) for ra, rv in zip(self.members(op[1]), op[2]) for a, v in zip(ra, rv)]
+        return []
 
     def prepare(self):
         from pycel.excelcompiler import ExcelCompiler
@@ -110,6 +140,21 @@ class P(explore.Problem):
                 return ('recalc',)
             except Exception as exc:
                 return ('exc', type(exc).__name__, str(exc)[:200])
+        elif op[0] in ('setmany', 'setrange'):
+            wr = self.writes(op)
+            if any(a not in m.cell_map for a, _ in wr):
+                return ('refused',)      # as for a single cell that is not in the model yet (nothing is written)
+            try:
+                if op[0] == 'setmany':
+                    m.set_value(list(op[1]), list(op[2]))
+                else:
+                    m.set_value(op[1], [list(r) for r in op[2]])
+            except Exception as exc:
+                return ('exc', type(exc).__name__, str(exc)[:200])
+            st['assign'] = dict(st['assign'])
+            for a, v in wr:
+                st['assign'][a] = v
+            return ('set', 0)
         else:
             _, addr, v = op
             before = None
@@ -143,9 +188,9 @@ class P(explore.Problem):
                 if all(v[0] == 'ok' for v in ref.values()):
                     return f'recalculate() raised {obs[1]}: {obs[2]}'
             return None
-        if op[0] == 'set':
+        if op[0] in ('set', 'setmany', 'setrange'):
             if obs[0] == 'exc':
-                return f'set_value{op[1:]} raised {obs[1]}: {obs[2]}'
+                return f'set_value{tuple(op[1:])} raised {obs[1]}: {obs[2]}'
             if obs[0] == 'set' and obs[1]:
                 self.invalidating += 1
             return None
@@ -179,8 +224,8 @@ class P(explore.Problem):
             return False
         assign = {}
         for o in list(hist):
-            if o[0] == 'set':
-                assign[o[1]] = o[2]
+            for a, v in self.writes(o):
+                assign[a] = v
         exp = self.ref(assign)[op[1]]
         if exp[0] != 'ok':
             return False
